@@ -26,6 +26,63 @@ class DropLink(DropLinkBase):
     pass
 
 
+def fw_der_uint(src):
+    """firmware/src/hal/sgx/src/trusted/der_utils.c der_encode_uint, transcribed: the padding
+    zero is decided on the first byte BEFORE leading zero bytes are trimmed (so 00 8x.. comes out
+    as 02 1f 8x.., without padding)"""
+    lz = bool(src[0] & 0x80)
+    trim = 0
+    while not src[trim] and trim < len(src) - 1:
+        trim += 1
+    body = (b"\x00" if lz else b"") + src[trim:]
+    return bytes([0x02, len(body)]) + body
+
+
+def fw_der_signature(rs):
+    """der_utils.c der_encode_signature over the raw r || s of the envelope"""
+    r, s = fw_der_uint(rs[:32]), fw_der_uint(rs[32:])
+    return bytes([0x30, len(r) + len(s)]) + r + s
+
+
+# -- algebraic alterations of a signature ------------------------------------------------------
+SIG_OPS = ["high-s", "neg-r", "swap", "pad-r", "pad-s"]
+
+
+def der_parse(sig):
+    """strict minimal DER ECDSA signature -> (r, s) as integers"""
+    assert sig[0] == 0x30 and sig[1] == len(sig) - 2 and sig[2] == 0x02
+    rl = sig[3]
+    r = sig[4:4 + rl]
+    assert sig[4 + rl] == 0x02
+    sl = sig[5 + rl]
+    s = sig[6 + rl:6 + rl + sl]
+    assert 6 + rl + sl == len(sig)
+    return int.from_bytes(r, "big"), int.from_bytes(s, "big")
+
+
+def der_int(v, pad=0):
+    b = v.to_bytes((v.bit_length() + 7) // 8 or 1, "big")
+    if b[0] & 0x80:
+        b = b"\x00" + b
+    b = b"\x00" * pad + b
+    return bytes([0x02, len(b)]) + b
+
+
+def der_build(r, s, pad_r=0, pad_s=0):
+    body = der_int(r, pad_r) + der_int(s, pad_s)
+    return bytes([0x30, len(body)]) + body
+
+
+def sig_op(r, s, op, order):
+    if op == "high-s":
+        return r, order - s
+    if op == "neg-r":
+        return order - r, s
+    if op == "swap":
+        return s, r
+    return r, s
+
+
 def pages_of(data, size):
     n = max(1, (len(data) + size - 1) // size)
     return [data[i * size:(i + 1) * size] for i in range(n)]
@@ -37,6 +94,11 @@ class Alterable:
 
     def part(self, name, data):
         a = self.alter
+        if a is not None and a.get("kind") == "sigalg" and a["field"] == name:
+            # a DER signature answer re-encoded after an algebraic change of (r, s)
+            r, s = sig_op(*der_parse(data), a["op"], self.sig_order)
+            self.altered_hit = True
+            return der_build(r, s, 1 if a["op"] == "pad-r" else 0, 1 if a["op"] == "pad-s" else 0)
         if a is not None and a.get("kind") == "bit" and a["field"] == name:
             i = a["index"]
             if i < len(data):
@@ -135,6 +197,7 @@ class LedgerFactory:
 
 class GenuineLedger(Device, Alterable, PubkeySwap):
     page_error = UI_PROT_INVALID
+    sig_order = k1.N
 
     def __init__(self, factory, ui_page_size=79, check_host=False, wallet_salt=b"",
                  signer_iteration=None):
@@ -439,6 +502,7 @@ class SgxPlatform:
 
 class GenuineSgx(Device, Alterable, PubkeySwap):
     page_error = ATT_PROT_INVALID
+    sig_order = S.P256_N
 
     def __init__(self, platform):
         self.p = platform
@@ -475,6 +539,12 @@ class GenuineSgx(Device, Alterable, PubkeySwap):
             if i < e:
                 raw = raw[:i] + bytes([raw[i] ^ a["mask"]]) + raw[i + 1:]
                 self.altered_hit = True
+        if a is not None and a.get("kind") == "sigalg" and a["field"].startswith("env."):
+            st, e = S.regions(f)[a["field"][4:]]
+            r, s2 = sig_op(int.from_bytes(raw[st:st + 32], "big"),
+                           int.from_bytes(raw[st + 32:e], "big"), a["op"], S.P256_N)
+            raw = raw[:st] + r.to_bytes(32, "big") + s2.to_bytes(32, "big") + raw[e:]
+            self.altered_hit = True
         if a is not None and a.get("kind") == "both":
             # the enclave is asked to attest another message: consistent everywhere but in the
             # quote that was signed
@@ -536,7 +606,10 @@ class GenuineSgx(Device, Alterable, PubkeySwap):
                 i = a["index"]
                 stream_msg = msg[:i] + bytes([msg[i] ^ a["mask"]]) + msg[i + 1:]
             self.att = {"msg": stream_msg, "env": raw, "fields": f}
-            return bytes([0x80, 0x50, 0x01]) + self.part("sig", S.der_sig(f["signature"]))
+            # endorsement.c endorsement_sign: the DER form (der_utils.c) of the signature that is
+            # inside the envelope (after any alteration of the envelope)
+            st = S.regions(f)["signature"][0]
+            return bytes([0x80, 0x50, 0x01]) + self.part("sig", fw_der_signature(raw[st:st + 64]))
         if self.att is None:
             raise SW(ATT_PROT_INVALID)
         if op in (0x02, 0x04):
